@@ -13,7 +13,7 @@ def programs(seed, n, nops):
     for i in range(n):
         mode = ["plain", "plain", "sw", "occ"][i % 4]
         # the last tenth of the programs pushes the journal over its rotation threshold (sealed journals take part)
-        g = Gen(seed * 100019 + i, mode=mode, nks=1 + i % 3, sealing=(2 + i % 2 if i >= n - max(16, n // 10) else 0),
+        g = Gen(seed * 100019 + i, mode=mode, nks=1 + i % 3, configs=["", "", "blob=8", "fifo=4000000000", "blob=1"], sealing=(2 + i % 2 if i >= n - max(16, n // 10) else 0),
                 weights=dict(reopen=2.5, snap=0, it=0, tx=0, txop=0, gc=0.3, ks=0.3, delks=0, ingest=3, clear=1.5,
                              major=1.5, rotate=3, step=3))
         p = g.program(nops)
@@ -62,24 +62,44 @@ def ingest_race(args):
     take effect in, the content right before the close and after the reopen must be the same, and the writer's
     acknowledged write to a key the ingestion does not touch must be there"""
     from common import run_fjv
-    mode, wkind, pre = args
+    mode, wkind, pre = args[:3]
+    hold = len(args) > 3 and args[3]
     L = ["open %s" % mode, "ks h0 alpha", "ks h1 beta", "put h0 61 01", "put h1 71 11"]
     if pre == "flushed":
         L += ["rotate h0", "drain"]
     L += ["pausepoint ingest.finish.locked 1 hold", "thread i ingest h0 62=02 63=03 &", "waitpause ingest.finish.locked"]
     w = {"put": "put h0 64 04", "put_same": "put h0 62 0f", "del": "del h0 61", "batch": "batch - h0:p:64:04 h1:p:72:12",
          "tx": "wtx t1", "other": "put h1 72 12"}[wkind]
+    # hold: the writer itself is held between its journal append and its memtable insert; if the ingestion did not keep the
+    # journal lock over its flush and registration, the writer would get there while the ingestion is parked, and its entry
+    # would end up in the memtable ABOVE an ingested table that carries a higher seqno
+    wsite = "batch.after_seqno" if wkind in ("batch", "tx") else "ks.after_journal"
+    if hold:
+        L += ["pausepoint %s 1 hold" % wsite]
     if wkind == "tx":
         L += ["thread w tx t1 begin", "thread w tx t1 put h0 64 04", "thread w tx t1 commit &"]
     else:
         L += ["thread w %s &" % w]
     # after the release: a synchronous no-op on each thread is a barrier (threads run their queues in order)
-    L += ["sleep 250", "release ingest.finish.locked", "thread i has - h1 00", "thread w has - h1 00", "put h1 73 13", "dump", "reopen", "dump", "reopen", "dump"]
+    L += ["sleep 250", "release ingest.finish.locked", "thread i has - h1 00"]
+    if hold:
+        L += ["sleep 100", "pausepoint %s 1 off" % wsite, "release %s" % wsite]
+    L += ["thread w has - h1 00", "put h1 73 13"]
+    g0 = len(L)
+    L += ["get - h0 61", "get - h0 62", "get - h0 63", "get - h0 64", "scan - h0 fwd all", "scan - h0 rev all"]
+    L += ["dump", "reopen", "dump", "reopen", "dump"]
     prog = "\n".join(L) + "\n"
     o, raw, rc = run_fjv(prog, env_extra={"FJV_SYNC_TIMEOUT_MS": "5000"}, timeout=60)
     n = len(L)
     before, after, after2 = o.get(n - 4), o.get(n - 2), o.get(n)
     problems = []
+    # point reads and scans of the quiescent keyspace must agree (C01), whatever order the two operations took effect in
+    sc = dict(x.split("=") for x in (o.get(g0 + 5) or "").split(",") if "=" in x)
+    for j, key in enumerate(("61", "62", "63", "64")):
+        g = o.get(g0 + 1 + j)
+        want = "some " + sc[key] if key in sc else "none"
+        if g is not None and o.get(g0 + 5) is not None and not o.get(g0 + 5).startswith(("err", "panic")) and g != want:
+            problems.append("point read of %s returns %s but the scan shows %s (scan %s)" % (key, g, sc.get(key), o.get(g0 + 5)))
     if before is None or "{" not in (before or ""):
         problems.append("schedule did not complete: %r" % (raw[-300:],))
     elif before != after or after != after2:
@@ -137,6 +157,10 @@ def run(rep, tier, seed, build):
              for pre in ("mem", "flushed") if not (m == "plain" and w == "tx")]
     if tier == "quick":
         races = [x for i, x in enumerate(races) if (i + seed) % 3 == 0 or x[:2] == ("plain", "put")]
+    # the same with the writer held between its journal append and its memtable insert
+    held = [(m, w, pre, True) for m in ("plain", "occ") for w in ("put_same", "put", "del", "batch", "tx")
+            for pre in ("mem", "flushed") if not (m == "plain" and w == "tx")]
+    races += held if tier != "quick" else [x for i, x in enumerate(held) if x[1] == "put_same" or (i + seed) % 4 == 0]
     rr, unconf = pmap_confirm(ingest_race, races, lambda x: bool(x["problems"]), workers=8)
     for x in [x for x in rr if x["problems"]][:2]:
         rep.violation("# C04: writer racing with a bulk ingestion that holds the journal lock: %s\n%s" % (x["problems"][0], x["prog"]))
